@@ -513,18 +513,23 @@ func (r *Reconciler) reconcileCommit(ctx context.Context, proposal *configapi.Pr
 
 func applyChangeToConfig(values map[string]*configapi.PathValue, path string, value *configapi.PathValue) (string, *configapi.PathValue) {
 	values[path] = value
-
-	// Walk up the path and make sure that there are no parents marked as deleted in the given map, if so, remove them
-	parent := pathutils.GetParentPath(path)
-	for parent != "" {
-		if v := values[parent]; v != nil && v.Deleted {
-			// Delete the parent marked as deleted and return its path and value
-			delete(values, parent)
-			return parent, v
-		}
-		parent = pathutils.GetParentPath(parent)
+	if value.Deleted {
+		return "", nil
 	}
-	return "", nil
+
+	// A value that is set lifts every tombstone above it (also the tombstone of a whole list, which is no
+	// parent path of the list entry): return the top-most one
+	var liftedPath string
+	var liftedValue *configapi.PathValue
+	for p, v := range values {
+		if v != nil && v.Deleted && pathutils.IsDescendantPath(path, p) {
+			delete(values, p)
+			if liftedValue == nil || len(p) < len(liftedPath) {
+				liftedPath, liftedValue = p, v
+			}
+		}
+	}
+	return liftedPath, liftedValue
 }
 
 func (r *Reconciler) reconcileApply(ctx context.Context, proposal *configapi.Proposal) (controller.Result, error) {
@@ -768,7 +773,7 @@ func (r *Reconciler) reconcileApply(ctx context.Context, proposal *configapi.Pro
 			config.Status.Applied.Values = make(map[string]*configapi.PathValue)
 		}
 		for path, changeValue := range updatedChangeValues {
-			config.Status.Applied.Values[path] = changeValue
+			_, _ = applyChangeToConfig(config.Status.Applied.Values, path, changeValue)
 		}
 
 		if err := r.configurations.UpdateStatus(ctx, config); err != nil {
